@@ -1,0 +1,52 @@
+package distiller
+
+import (
+	"bytes"
+	"io"
+	"unicode/utf8"
+
+	"github.com/gogs/chardet"
+	"golang.org/x/net/html"
+	"golang.org/x/net/html/charset"
+	"golang.org/x/text/runes"
+	"golang.org/x/text/transform"
+	"golang.org/x/text/unicode/norm"
+)
+
+// parseDocument parses the input into a HTML document, converting its text to
+// normalised UTF-8 like dom.Parse does. Unlike dom.Parse it never guesses the
+// encoding of input that is valid UTF-8 (the guess turns "café" in an English
+// page into "cafÃ©"), and when it has to guess it ranks equally likely
+// encodings by name, so the outcome doesn't depend on the order in which the
+// recognizers of chardet, which run in goroutines, happen to answer.
+func parseDocument(r io.Reader) (*html.Node, error) {
+	content, err := io.ReadAll(r)
+	if err != nil {
+		return nil, err
+	}
+
+	var input io.Reader = bytes.NewReader(content)
+	if !utf8.Valid(content) {
+		candidates, err := chardet.NewHtmlDetector().DetectAll(content)
+		if err != nil {
+			return nil, err
+		}
+
+		best := candidates[0]
+		for _, candidate := range candidates[1:] {
+			if candidate.Confidence > best.Confidence ||
+				(candidate.Confidence == best.Confidence && candidate.Charset < best.Charset) {
+				best = candidate
+			}
+		}
+
+		if pageEncoding, _ := charset.Lookup(best.Charset); pageEncoding != nil {
+			input = transform.NewReader(input, pageEncoding.NewDecoder())
+		}
+	}
+
+	// Convert text from NFD to NFC and remove soft hyphens, as dom.Parse does.
+	softHyphen := runes.Predicate(func(r rune) bool { return r == '\u00AD' })
+	normalizer := transform.Chain(norm.NFD, runes.Remove(softHyphen), norm.NFC)
+	return html.Parse(transform.NewReader(input, normalizer))
+}
